@@ -157,7 +157,8 @@ Tick(cmdrdy, bready, rready, pulse) ==
       newcmd == [we |-> wcmd, a |-> IF wcmd THEN wbc ELSE rbc, tag |-> IF wcmd THEN Tag(awb, wbc) ELSE Tag(arb, rbc), age |-> 1]
       \* ------------------------------------------------------------------ observer events of this cycle
       anyev == pw \/ pr \/ aw_hs \/ w_hs \/ ar_hs \/ b_hs \/ r_hs
-      evs == (IF pw /\ wd_valid THEN <<[c |-> "WDATA", t |-> now]>> ELSE <<>>)
+      evs == (IF cmd_acc THEN <<[c |-> "CMD", we |-> wcmd, t |-> now]>> ELSE <<>>)
+             \o (IF pw /\ wd_valid THEN <<[c |-> "WDATA", t |-> now]>> ELSE <<>>)
              \o (IF pw /\ ~wd_valid THEN <<[c |-> "WDROP", t |-> now]>> ELSE <<>>)
              \o (IF pr /\ ~rsink_ready THEN <<[c |-> "RDROP", t |-> now]>> ELSE <<>>)
              \o (IF aw_hs THEN <<[c |-> "AW", id |-> awn + 1, addr |-> 0, len |-> wlen[awn + 1], size |-> 0, burst |-> 1, t |-> now, t0 |-> awt0]>> ELSE <<>>)
